@@ -66,6 +66,11 @@ def run(ctx, res):
     cr = R.corr(ctx.pid, "raire_rnd", R.IMPORTS, "raire_case", rnd, R.case_lit, "agree_c15", shard=40, show="show_c15")
     res.corr.append(("max difficulty of compute_raire_assertions output vs verified optimum opt (RaireCheck.v), random profiles",
                      cr, R.case_json))
+    # the search itself, output for output, against the fuelled model RaireAlgo.raire (exact difficulties)
+    ac = R.algo_cases(ex, rng) + R.algo_cases(rnd, rng)
+    cr = R.corr(ctx.pid, "algo", R.IMPORTS, "raire_case * list cand", ac, R.algo_lit, "agree_algo", shard=250, show="show_algo")
+    res.corr.append(("compute_raire_assertions assertion list vs RaireAlgo.raire (model of the search)", cr, R.case_json))
+    res.evaluations += len(ac)
     ec = est_cases(ctx.n(60, 90))
     cr2 = R.corr(ctx.pid, "est", R.IMPORTS, "nat * nat * nat * Z * Z * Z * Z", ec, est_lit, "agree_est", shard=1300,
                      show="show_est")
